@@ -129,11 +129,11 @@ theorem pin_execApMap (i : Instr) (key val : Value) (name : String) (pos : Nat) 
   apply pin_bind' (pin_joinable (pin_readER fun c => applyToArgStream_in c val)); intro r
   split
   · exact pin_pure _ trivial
-  · apply pin_bind' (pin_liftTH i fun th => meetApStart_in th); intro met
-    apply pin_bind' (pin_joinable (pin_readER fun c => resolveKeyIfNeeded_in c key name)); intro k
+  · apply pin_bind' (pin_joinable (pin_readER fun c => resolveKeyIfNeeded_in c key name)); intro k
     split
     · exact pin_pure _ trivial
-    · apply pin_bind' (pin_modifyER fun c => addStreamMapValue_in _ _ _ _ _ _); intro _
+    · apply pin_bind' (pin_liftTH i fun th => meetApStart_in th); intro met
+      apply pin_bind' (pin_modifyER fun c => addStreamMapValue_in _ _ _ _ _ _); intro _
       exact pin_modifyCtx _
 
 theorem getValueFromObjAgg_in (kv : ValueAggregate) : ResIn L (getValueFromObjAgg kv) := by
